@@ -181,7 +181,7 @@ class Debugger:
 
     def finished(self) -> bool:
         """Return True if the debugger has finished executing the program."""
-        return self.vm.halted or self.vm.pc >= len(self.program.code)
+        return self.vm.halted or not 0 <= self.vm.pc < len(self.program.code)
 
     def empty(self) -> bool:
         """Return True if the debugged program is empty."""
